@@ -84,6 +84,7 @@ impl Check for C03 {
             corp.len(),
             ctx.tier.pick(SIGMA_SMALL.len(), SIGMA.len())
         );
+        ctx.rule.push_str("; (3c) through the command itself: every string of length 0..2 (thorough 0..3) over the alphabet and every truncation of the short corpus programs, as written and with one and two final line breaks");
         let mut batch: Vec<Case> = vec![];
         let mut n_strings = 0u64;
         let n = SIGMA.len();
